@@ -150,6 +150,65 @@ class Checker(object):
         return o
 
 
+_OTHER = {'float64': 'float32', 'float32': 'float64', 'complex128': 'complex64', 'complex64': 'complex128',
+          'int64': 'int32', 'int32': 'int64'}
+
+
+def out_dtype_lattice(ctx, C, uf, sp, x, xa, y, ya):
+    """out= given as element or ndarray x out dtype in {result dtype, the other width of its kind} x dtype= keyword in
+    {absent, result dtype, other width} x method in {__call__, reduce, accumulate}: the given object is returned and
+    holds exactly what NumPy writes into an array of the same dtype for the same call (NumPy raising => not compared)."""
+    name = uf.__name__
+    args_o, args_n = ((x,), (xa,)) if uf.nin == 1 else ((x, y), (xa, ya))
+    r = call(lambda: uf(*args_n))
+    if r[0] != 'ok' or uf.nout != 1:
+        return
+    base = np.dtype(r[1].dtype)
+    other = np.dtype(_OTHER[base.name]) if base.name in _OTHER else None
+    dts = [base] + ([other] if other is not None else [])
+    methods = [('call', lambda u, a, **kw: u(*a, **kw), r[1].shape)]
+    if uf.nin == 2 and sp.ndim >= 2:
+        rr = call(lambda: uf.reduce(xa, axis=0))
+        if rr[0] == 'ok' and np.ndim(rr[1]) > 0:
+            methods.append(('reduce', lambda u, a, **kw: u.reduce(a[0], axis=0, **kw), np.shape(rr[1])))
+    if uf.nin == 2:
+        ra = call(lambda: uf.accumulate(xa))
+        if ra[0] == 'ok':
+            methods.append(('accumulate', lambda u, a, **kw: u.accumulate(a[0], **kw), np.shape(ra[1])))
+    for (mname, mfn, shape), out_dt, kw_dt, kind in itertools.product(methods, dts, [None] + dts, ('arr', 'elem')):
+        if kind == 'elem' and (mname != 'call' or isinstance(sp, odl.DiscretizedSpace) and out_dt != base):
+            continue
+        kw = {} if kw_dt is None else {'dtype': kw_dt}
+        ref_out = np.full(shape, 7, dtype=out_dt)
+        rn = call(lambda: mfn(uf, args_n, out=ref_out, **kw))
+        if rn[0] != 'ok':
+            continue
+        tag = '%s:out=%s' % (mname, kind)
+        cfg = '%s;out-dtype=%s;dtype-kw=%s' % (C.cfg, 'result' if out_dt == base else 'other-width',
+                                               'absent' if kw_dt is None else ('result' if kw_dt == base else 'other-width'))
+        ctx.ev('out-lattice')
+        ctx.case('out-lattice;%s;%s' % (tag, C.sname), (name, str(out_dt), str(kw_dt)))
+        try:
+            given = np.full(shape, 7, dtype=out_dt) if kind == 'arr' else sp.astype(out_dt).element(np.full(shape, 7, dtype=out_dt))
+        except Exception:
+            ctx.skip('no space of that dtype')
+            continue
+        ro = call(lambda: mfn(uf, args_o, out=given, **kw))
+        if ro[0] != 'ok':
+            ctx.violation(tag, cfg, 'raises:' + type(ro[1]).__name__, ufunc=name, message=str(ro[1])[:200])
+            continue
+        if ro[1] is not given:
+            ctx.violation(tag, cfg, 'not-out', ufunc=name)
+        if not same(given, ref_out):
+            # NumPy's own reductions into an `out` narrower than `dtype=` round the first item through `out`; computing
+            # in `dtype=` and casting the finished result into `out` is the other admissible reading of the same call
+            alt = call(lambda: mfn(uf, args_n, **kw))
+            if alt[0] == 'ok' and same(given, np.asarray(alt[1]).astype(out_dt)):
+                ctx.note_add('out_lattice_matches_compute_then_cast_only')
+            else:
+                ctx.violation(tag, cfg, 'out-not-written', ufunc=name, got=np.asarray(given).ravel()[:4], ref=ref_out.ravel()[:4])
+
+
 def run_ufuncs(ctx):
     rng = ctx.rng('ufuncs')
     idx = 0
@@ -296,6 +355,7 @@ def _one(ctx, rng, idx, sname, sp, uf, vcls):
                     uf.at(z, [0], ya.ravel()[:1] if sp.ndim == 1 else ya[:1])
                     return z
                 chk('at', at_o, at_n)
+        out_dtype_lattice(ctx, C, uf, sp, x, xa, y, ya)
         if hasattr(x.ufuncs, name):
             if uf.nin == 1:
                 chk('legacy1', lambda: getattr(x.ufuncs, name)(), lambda: uf(xa))
